@@ -50,3 +50,23 @@ PROP = dict(
         technique="Lean 4 proof (invariants over association-list maps) + differential correspondence harness",
     ),
 )
+
+
+def extra(c):
+    """Disconnect cleanup must not depend on which exit features the agent itself is configured with: a transit relays
+    TCP, UDP and ICMP tunnels whatever its own exit/udp/icmp settings are (C17_agent_disconnect_clean quantifies over
+    every table).  Engine op `tworld e u i`: a second real agent per configuration, one relayed tunnel of every kind
+    from peer 1 towards peer 2, peer 1 disconnects; sizes of the three relay tables (both indexes) before/after."""
+    if not c.harness:
+        return
+    ops = ["tworld %d %d %d" % (e, u, i) for e in (0, 1) for u in (0, 1) for i in (0, 1)]
+    out = c.go_run("c17r", ops, timeout=300)
+    want = "before 2/2/2 after 0/0/0"
+    bad = [k for k, o in enumerate(out) if o != want]
+    c.oblige("config-matrix:relay-tables-empty-after-disconnect", "tie", not bad,
+             ("%s -> %s (expected %s)" % (ops[bad[0]], out[bad[0]], want)) if bad else "%d configurations" % len(ops))
+    if bad:
+        k = bad[0]
+        c.violate("relay records of a disconnected peer remain on an agent configured with (exit, udp, icmp) = %s: %s"
+                  % (ops[k].split(" ", 1)[1], out[k]),
+                  {"engine": "c17r", "origin": "config matrix", "ops": [ops[k]], "impl_outputs": [out[k]], "expected": want}, True)
